@@ -94,6 +94,30 @@ inline VecL make_spectrum(const std::string& kind, int n, Rng& r, const Desc& d)
         for (int i = 0; i < n; i++)
             s[i] = std::pow(2.0L, -span * (LD) i / (LD)(n > 1 ? n - 1 : 1)) * (i % 2 ? -1.0L : 1.0L);
     }
+    else if (kind == "evenintnz")
+    {
+        // as evenint, but nonsingular: 0 is excluded (the start vector is forced into range(A), so an eigenvalue 0 is
+        // systematically invisible to the plain solvers: recorded as a known finding on a fixed descriptor)
+        std::vector<int> pool;
+        for (int v = -14; v <= 14; v++)
+            if (v != 0)
+                pool.push_back(v);
+        for (int i = (int) pool.size() - 1; i > 0; i--)
+            std::swap(pool[i], pool[r.below(i + 1)]);
+        for (int i = 0; i < n; i++)
+            s[i] = (LD) pool[i % 28];
+    }
+    else if (kind == "evenint")
+    {
+        // n distinct integers from [-14, 14] (C04: exact rational oracle in the specification), n <= 29
+        std::vector<int> pool;
+        for (int v = -14; v <= 14; v++)
+            pool.push_back(v);
+        for (int i = (int) pool.size() - 1; i > 0; i--)
+            std::swap(pool[i], pool[r.below(i + 1)]);
+        for (int i = 0; i < n; i++)
+            s[i] = (LD) pool[i % 29];
+    }
     else if (kind == "pos")
     {
         for (int i = 0; i < n; i++)
@@ -333,6 +357,12 @@ inline GenProblem gen_gen(const Desc& d)
                 a = (LD)(c + 1) * (c % 2 ? -1.0L : 1.0L);
                 b = (LD)(c + 1);
             }
+            else if (sk == "cint")
+            {
+                // Gaussian integers c + (2c+1) i: distinct moduli, real parts and imaginary parts (C04: exact oracle in the spec)
+                a = (LD) c;
+                b = (LD)(2 * c + 1);
+            }
             else
             {
                 a = r.sym() * 2.0L;
@@ -348,6 +378,8 @@ inline GenProblem gen_gen(const Desc& d)
         for (int c = 0; i < n; i++, c++)
         {
             LD a = (sk == "int") ? (LD)(c + 1) * 1.5L * (c % 2 ? -1.0L : 1.0L) + 0.25L : r.sym() * 3.0L;
+            if (sk == "cint")
+                a = (LD)((c % 2 ? -1 : 1) * (6 + c));   // 6, -7, 8, -9, ...: distinct from the complex pairs in every key
             D(i, i) = a;
             p.spec[i] = CLD(a, 0);
         }
